@@ -65,6 +65,8 @@ func consumed(inj plan, effs []string, w *world) bool {
 			hit = w.listHit[site]
 		case "hook":
 			hit = w.hookHit
+		case "pool_patch":
+			hit = w.poolPatchHit
 		default:
 			eff := map[string]string{"fin": "EFin", "create": "ECreate", "del_launch": "EDelLaunch", "npatch_reg": "ENodePatchReg",
 				"pool_reg": "EPoolReg", "npatch_init": "ENodePatchInit", "pool_live1": "EPoolLive", "del_live1": "EDelLive",
@@ -110,6 +112,9 @@ func reached(effs []string, w *world) map[string]bool {
 	if w.hookHit {
 		m["hook"] = true
 	}
+	if w.poolPatchHit {
+		m["pool_patch"] = true
+	}
 	return m
 }
 
@@ -133,7 +138,7 @@ func runHist(sl *slot, h hist, ks consts) (out result) {
 				stale++
 			}
 		}
-		w.listHit, w.hookHit = map[string]bool{}, false
+		w.listHit, w.hookHit, w.poolPatchHit = map[string]bool{}, false, false
 		gop, effs, res := w.apply(o)
 		if o.Kind == "Rec" {
 			recs++
@@ -151,6 +156,12 @@ func runHist(sl *slot, h hist, ks consts) (out result) {
 		jobs = append(jobs, strings.Join(effs, ",")+" -> "+res)
 		// input distribution: which branches of the modelled code the implementation took
 		count("op:" + o.Kind)
+		if o.Kind == "NEph" && o.B {
+			count(fmt.Sprintf("ephemeral-taint-kind:%d", o.D%len(ephKinds)))
+		}
+		if o.Kind == "NReady" && !o.B {
+			count("node-not-ready-as:" + []string{"False", "Unknown", "absent"}[o.D%3])
+		}
 		if o.Kind == "Rec" {
 			for _, e := range effs {
 				count("call:" + e)
@@ -172,6 +183,11 @@ func runHist(sl *slot, h hist, ks consts) (out result) {
 		}
 	}
 	count("history:" + h.Tag)
+	for n, b := range map[string]bool{"orphan-owner-ref": h.K.Pool && h.K.Orphan, "zero-quantity-request": h.K.ZeroReq, "claim-taints": h.K.Taints, "long-error-message": h.K.LongMsg, "unmanaged": !h.K.Managed} {
+		if b {
+			count("claim:" + n)
+		}
+	}
 	count(fmt.Sprintf("history-stale-reconciles:%d", min(stale, 3)))
 	count(fmt.Sprintf("history-faulty-reconciles:%d", min(faults, 3)))
 	count(fmt.Sprintf("instances-created:%d", min(w.prov.made, 3)))
@@ -234,10 +250,10 @@ func runAll(c *kit.Ctx, ks consts, hs []hist) (skipped int) {
 func cfgs() []cfgT {
 	return []cfgT{
 		{Managed: true},
-		{Managed: true, Startup: true, Ext: true, Hook: true, Pool: true},
-		{Managed: true, Pool: true},
-		{Managed: true, Startup: true, Hook: true},
-		{Managed: true, Ext: true, Pool: true},
+		{Managed: true, Startup: true, Ext: true, Hook: true, Pool: true, ZeroReq: true, Taints: true, LongMsg: true},
+		{Managed: true, Pool: true, Orphan: true},
+		{Managed: true, Startup: true, Hook: true, Taints: true},
+		{Managed: true, Ext: true, Pool: true, ZeroReq: true},
 	}
 }
 
@@ -259,7 +275,7 @@ func singleFaults() []plan {
 		out = append(out,
 			plan{Fin: kind}, plan{Create: 1, DelLaunch: kind}, plan{Create: 5, DelLaunch: kind}, plan{Create: 8, DelLaunch: kind}, plan{NPatchReg: kind}, plan{PoolReg: kind}, plan{NPatchInit: kind},
 			plan{PoolLive1: kind}, plan{DelLive1: kind}, plan{PoolLive2: kind}, plan{DelLive2: kind}, plan{Patch: kind}, plan{Status: kind},
-			plan{Term: kind}, plan{Unfin: kind})
+			plan{Term: kind}, plan{Unfin: kind}, plan{PoolPatch: kind})
 	}
 	for cr := 1; cr < len(createShapes); cr++ {
 		out = append(out, plan{Create: cr})
@@ -276,7 +292,7 @@ func withFaultAt(script []opT, idx int, p plan, stale bool) []opT {
 		if o.Kind == "Rec" {
 			n++
 			if n == idx {
-				out = append(out, rec(p))
+				out = append(out, rec(mergePlan(*o.Plan, p)))
 				if stale && i+1 < len(script) && script[i+1].Kind == "Sync" {
 					// the informer does not catch up before the next reconcile
 					out = append(out, rec(okPlan))
@@ -321,6 +337,10 @@ func scripts(k cfgT, ks consts) map[string][]opT {
 	m["duplicate-node"] = append([]opT{rec(okPlan), op("Sync"), opb("NodeAppear", true), op("DupAppear"), rec(okPlan), op("Sync"), tick(rt), rec(okPlan), op("DupVanish")}, tail...)
 	m["no-unregistered-taint"] = append([]opT{rec(okPlan), op("Sync"), opb("NodeAppear", false), opb("NReady", true), opb("NExt", true), op("NStartupOff"), rec(okPlan)}, tail...)
 	m["ephemeral-taint"] = append(append(happy(k)[:len(happy(k))-3], opb("NEph", true), rec(okPlan), op("Sync"), opb("NEph", false), op("NStartupOff")), tail...)
+	for kind := range ephKinds {
+		hp := happy(k)
+		m[fmt.Sprintf("ephemeral-taint-kind-%d", kind)] = append(append(hp[:len(hp)-3], opT{Kind: "NEph", B: true, D: kind}, opT{Kind: "NReady", D: kind % 3}, opb("NReady", true), rec(okPlan), op("Sync"), opb("NEph", false), op("NStartupOff")), tail...)
+	}
 	m["terminate"] = append(append(happy(k), op("EnvDelete"), op("Sync"), rec(okPlan), op("NodeVanish"), rec(okPlan), rec(okPlan)), tail...)
 	m["terminate-early"] = append([]opT{rec(okPlan), op("EnvDelete"), op("Sync"), rec(okPlan), rec(okPlan)}, tail...)
 	m["terminate-unlaunched"] = append([]opT{rec(plan{Create: 4}), op("EnvDelete"), op("Sync"), rec(okPlan)}, tail...)
@@ -351,66 +371,74 @@ func permutations(n int) [][]int {
 	return out
 }
 
+// mergePlan overlays the faults of f on p.
+func mergePlan(p, f plan) plan {
+	if f.Fin != 0 {
+		p.Fin = f.Fin
+	}
+	if f.Create != 0 {
+		p.Create = f.Create
+	}
+	if f.DelLaunch != 0 {
+		p.DelLaunch = f.DelLaunch
+	}
+	p.ListReg = p.ListReg || f.ListReg
+	if f.Hook != 0 {
+		p.Hook, p.HookD = f.Hook, f.HookD
+	}
+	if f.NPatchReg != 0 {
+		p.NPatchReg = f.NPatchReg
+	}
+	if f.PoolReg != 0 {
+		p.PoolReg = f.PoolReg
+	}
+	p.ListInit = p.ListInit || f.ListInit
+	if f.NPatchInit != 0 {
+		p.NPatchInit = f.NPatchInit
+	}
+	if f.PoolLive1 != 0 {
+		p.PoolLive1 = f.PoolLive1
+	}
+	if f.DelLive1 != 0 {
+		p.DelLive1 = f.DelLive1
+	}
+	if f.PoolLive2 != 0 {
+		p.PoolLive2 = f.PoolLive2
+	}
+	if f.DelLive2 != 0 {
+		p.DelLive2 = f.DelLive2
+	}
+	if f.Patch != 0 {
+		p.Patch = f.Patch
+	}
+	if f.Status != 0 {
+		p.Status = f.Status
+	}
+	p.PDelErr = p.PDelErr || f.PDelErr
+	if f.Term != 0 {
+		p.Term = f.Term
+	}
+	if f.Unfin != 0 {
+		p.Unfin = f.Unfin
+	}
+	if f.PoolPatch != 0 {
+		p.PoolPatch = f.PoolPatch
+	}
+	return p
+}
+
 func randomPlan(r *kit.Rand, nf int) plan {
 	p := plan{}
 	sf := singleFaults()
 	for i := 0; i < nf; i++ {
-		f := kit.Pick(r, sf)
-		// merge f into p field by field
-		if f.Fin != 0 {
-			p.Fin = f.Fin
-		}
-		if f.Create != 0 {
-			p.Create = f.Create
-		}
-		if f.DelLaunch != 0 {
-			p.DelLaunch = f.DelLaunch
-		}
-		p.ListReg = p.ListReg || f.ListReg
-		if f.Hook != 0 {
-			p.Hook, p.HookD = f.Hook, f.HookD
-		}
-		if f.NPatchReg != 0 {
-			p.NPatchReg = f.NPatchReg
-		}
-		if f.PoolReg != 0 {
-			p.PoolReg = f.PoolReg
-		}
-		p.ListInit = p.ListInit || f.ListInit
-		if f.NPatchInit != 0 {
-			p.NPatchInit = f.NPatchInit
-		}
-		if f.PoolLive1 != 0 {
-			p.PoolLive1 = f.PoolLive1
-		}
-		if f.DelLive1 != 0 {
-			p.DelLive1 = f.DelLive1
-		}
-		if f.PoolLive2 != 0 {
-			p.PoolLive2 = f.PoolLive2
-		}
-		if f.DelLive2 != 0 {
-			p.DelLive2 = f.DelLive2
-		}
-		if f.Patch != 0 {
-			p.Patch = f.Patch
-		}
-		if f.Status != 0 {
-			p.Status = f.Status
-		}
-		p.PDelErr = p.PDelErr || f.PDelErr
-		if f.Term != 0 {
-			p.Term = f.Term
-		}
-		if f.Unfin != 0 {
-			p.Unfin = f.Unfin
-		}
+		p = mergePlan(p, kit.Pick(r, sf))
 	}
 	return p
 }
 
 func randomHist(r *kit.Rand, ks consts, maxFaults int) hist {
-	k := cfgT{Managed: !r.Chance(1, 25), Startup: r.Bool(), Ext: r.Bool(), Hook: r.Chance(1, 3), Pool: r.Bool()}
+	k := cfgT{Managed: !r.Chance(1, 25), Startup: r.Bool(), Ext: r.Bool(), Hook: r.Chance(1, 3), Pool: r.Bool(),
+		Orphan: r.Chance(1, 4), ZeroReq: r.Bool(), Taints: r.Bool(), LongMsg: r.Chance(1, 3)}
 	n := r.Range(6, 16)
 	var ops []opT
 	faultsLeft := maxFaults
@@ -444,13 +472,13 @@ func randomHist(r *kit.Rand, ks consts, maxFaults int) hist {
 		case x < 68:
 			ops = append(ops, opb("NodeAppear", !r.Chance(1, 5)))
 		case x < 76:
-			ops = append(ops, opb("NReady", !r.Chance(1, 5)))
+			ops = append(ops, opT{Kind: "NReady", B: !r.Chance(1, 4), D: r.Intn(3)})
 		case x < 81:
 			ops = append(ops, op("NStartupOff"))
 		case x < 85:
 			ops = append(ops, opb("NExt", !r.Chance(1, 5)))
 		case x < 88:
-			ops = append(ops, opb("NEph", r.Bool()))
+			ops = append(ops, opT{Kind: "NEph", B: r.Chance(2, 3), D: r.Intn(len(ephKinds))})
 		case x < 91:
 			ops = append(ops, op("EnvDelete"))
 		case x < 94:
